@@ -39,9 +39,11 @@ static std::string mkvalue() {
 #endif
 }
 struct Parsed { bool threw; std::vector<std::string> sval; std::vector<int> ival; std::vector<int> dflt; std::vector<int> hasv; };
+struct Env { ParseContext ctx; ErrorGuard guard; UnitSystem us1 { UnitSystem::UnitType::UNIT_TYPE_METRIC }, us2 { UnitSystem::UnitType::UNIT_TYPE_METRIC }; };
+static Env* ENV = nullptr;
 static Parsed run(const ParserRecord& pr, const std::string& text) {
     Parsed out; out.threw = false;
-    ParseContext ctx; ErrorGuard guard; UnitSystem us1(UnitSystem::UnitType::UNIT_TYPE_METRIC), us2(UnitSystem::UnitType::UNIT_TYPE_METRIC);
+    ParseContext& ctx = ENV->ctx; ErrorGuard& guard = ENV->guard; UnitSystem& us1 = ENV->us1; UnitSystem& us2 = ENV->us2;
     try {
         RawRecord raw(std::string_view(text), KeywordLocation{});
         DeckRecord rec = pr.parse(ctx, guard, raw, us1, us2, KeywordLocation{});
@@ -63,7 +65,7 @@ static bool same(const Parsed& a, const Parsed& b) { return a.threw == b.threw &
 #define WITHDEF 1
 #endif
 extern "C" void h_repeat_value(void) {          // n*v  ==  v v ... v
-    ParserRecord pr = mkrecord(WITHDEF);
+    ParserRecord pr = mkrecord(WITHDEF); Env env; ENV = &env;      // input-independent objects first: built once, before the paths fork
     std::string v = mkvalue(), w = mkvalue();
     unsigned long n = nondet_ulong(); ASSUME(n >= 1 && n <= 3); n = verif_concretize(n, 3);
     std::string a = std::to_string(n) + "*" + v + " " + w, b;
@@ -79,7 +81,7 @@ extern "C" void h_repeat_value(void) {          // n*v  ==  v v ... v
     if (n < 3) CHECK(pa.dflt[3] == 1);            // the item after the last written one is defaulted
 }
 extern "C" void h_repeat_default(void) {        // n*  ==  1* ... 1* ; early end == trailing 1*
-    ParserRecord pr = mkrecord(WITHDEF);
+    ParserRecord pr = mkrecord(WITHDEF); Env env; ENV = &env;
     std::string v = mkvalue();
     unsigned long n = nondet_ulong(); ASSUME(n >= 1 && n <= 3); n = verif_concretize(n, 3);
     std::string a = std::to_string(n) + "* " + v, b;
